@@ -128,33 +128,31 @@ class ChannelItem(EFLRItem, DimensionedItem):
 
         dim = list(sub_data.shape[1:]) or [1]
 
-        # a dimension / element limit taken from the data of an earlier write is not the user's: it follows the data again
-        given_dim = self.dimension.value
-        if given_dim and given_dim == getattr(self, '_dimension_from_data', None):
-            given_dim = None
-        given_limit = self.element_limit.value
-        if given_limit and given_limit == getattr(self, '_element_limit_from_data', None):
-            given_limit = None
-        self._dimension_from_data = None if given_dim else dim
-        self._element_limit_from_data = None if given_limit else dim
+        # a dimension / element limit the library filled in at an earlier write is not the user's: it follows the data again
+        # (a limit given by the user, which an earlier write replaced by the dimension it bounds, is still the user's limit)
+        given_dim = None if self.dimension._value_is_default else self.dimension.value
+        if self.element_limit._value_is_default:
+            given_limit = getattr(self, '_element_limit_given', None)
+        else:
+            given_limit = self.element_limit.value
 
         if given_dim != dim:
             if given_dim:
                 raise RuntimeError(f"Previously defined dimension of {self}: {self.dimension.value} "
                                    f"does not match the dimension from data: {dim}")
             logger.debug(f"Setting dimension of {self} to {dim}")
-            self.dimension.value = dim
+            self.dimension._set_default_value(dim)
 
-        if given_limit != dim:
-            if given_limit:  # was specified and is not exactly equal to dim
-                if not self._compare_element_limit_vs_dimension(given_limit, dim):
-                    # the difference is and not acceptable according to RP66 rules
-                    raise RuntimeError(f"Previously defined element limit of {self}: {self.element_limit.value} "
-                                       f"does not match the dimension from data: {dim}")
-            else:
-                # only set the element limit if it was None before
-                logger.debug(f"Setting element limit of {self} to {dim}")
-            self.element_limit.value = dim
+        if given_limit and given_limit != dim:  # was specified and is not exactly equal to dim
+            if not self._compare_element_limit_vs_dimension(given_limit, dim):
+                # the difference is and not acceptable according to RP66 rules
+                raise RuntimeError(f"Previously defined element limit of {self}: {given_limit} "
+                                   f"does not match the dimension from data: {dim}")
+
+        if self.element_limit.value != dim:
+            logger.debug(f"Setting element limit of {self} to {dim}")
+            self.element_limit._set_default_value(dim)
+            self._element_limit_given = given_limit or None
 
     @staticmethod
     def _compare_element_limit_vs_dimension(el: list[int], dim: list[int]) -> bool:
@@ -196,15 +194,20 @@ class ChannelItem(EFLRItem, DimensionedItem):
     def _run_checks_and_set_defaults(self) -> None:
         """Set up default values of ChannelItem parameters if not explicitly set previously."""
 
-        if not self.element_limit.value and self.dimension.value:
-            logger.debug(f"Setting element limit of channel '{self.name}' to the same value "
-                         f"as dimension: {self.dimension.value}")
-            self.element_limit.value = self.dimension.value
+        el_is_default = not self.element_limit.value or self.element_limit._value_is_default
+        dim_is_default = not self.dimension.value or self.dimension._value_is_default
 
-        elif not self.dimension.value and self.element_limit.value:
-            logger.debug(f"Setting dimension of channel '{self.name}' to the same value "
-                         f"as element limit: {self.element_limit.value}")
-            self.dimension.value = self.element_limit.value
+        if el_is_default and not dim_is_default:
+            if self.element_limit.value != self.dimension.value:
+                logger.debug(f"Setting element limit of channel '{self.name}' to the same value "
+                             f"as dimension: {self.dimension.value}")
+                self.element_limit._set_default_value(self.dimension.value)
+
+        elif dim_is_default and not el_is_default:
+            if self.dimension.value != self.element_limit.value:
+                logger.debug(f"Setting dimension of channel '{self.name}' to the same value "
+                             f"as element limit: {self.element_limit.value}")
+                self.dimension._set_default_value(self.element_limit.value)
 
         elif self.element_limit.value != self.dimension.value:
             if not self._compare_element_limit_vs_dimension(self.element_limit.value, self.dimension.value):
@@ -215,10 +218,9 @@ class ChannelItem(EFLRItem, DimensionedItem):
         self._check_axis_vs_dimension()
 
         # a long name taken from the channel's name at an earlier write is not the user's: it follows the name again
-        if not self.long_name.value or self.long_name.value == getattr(self, '_long_name_from_name', None):
+        if not self.long_name.value or self.long_name._value_is_default:
             logger.debug(f"Long name of channel '{self.name}' not specified; setting it to to the channel's name")
-            self.long_name.value = self.name
-            self._long_name_from_name = self.long_name.value
+            self.long_name._set_default_value(self.name)
 
 
 class ChannelSet(EFLRSet):
